@@ -296,13 +296,15 @@ inductive Op where
   | gibbsSweep | gibbsSweepNoRng
   | sampleMCMC | sampleVI
   | cliPrepareRetrospective | cliCalculateScores | cliSelectNextPlate | cliTrainModel | cliTrainModelVI
+  | cliEvaluateModel
 deriving DecidableEq, Repr, Inhabited
 
 def Op.all : List Op :=
   [.sparseCover, .generatePlates, .smoothPlates, .randomHoldout, .plateBalancedHoldout, .scorer,
    .kPerSamplePolicy, .selectNextPlate, .selectNextPlateNoRng, .scoreChunk, .scoreChunkNoRng,
    .sampleMvn, .sampleMvnNoRng, .gibbsSweep, .gibbsSweepNoRng, .sampleMCMC, .sampleVI,
-   .cliPrepareRetrospective, .cliCalculateScores, .cliSelectNextPlate, .cliTrainModel, .cliTrainModelVI]
+   .cliPrepareRetrospective, .cliCalculateScores, .cliSelectNextPlate, .cliTrainModel, .cliTrainModelVI,
+   .cliEvaluateModel]
 
 /-- the program of an operation; its value is the list of values drawn (the operation's output is
 a function of the inputs and of this list) -/
@@ -332,6 +334,8 @@ def prog : Op → Args → Prog (List Nat)
   /- cli/train_model.py:150-159 -> sampling.sample -/
   | .cliTrainModel, a => fromEvents (sampleMCMCEvents a.model a.cfg a.steps)
   | .cliTrainModelVI, a => fromEvents (sampleVIEvents a.n)
+  /- cli/evaluate_model.py:57-90 accepts `--seed` and makes no draw at all -/
+  | .cliEvaluateModel, _ => .ret []
 
 /-- operations that are NOT claimed: library calls made without a generator (outside the
 property: "the given generator") and the pyro/torch VI model, which ignores its generator (known
